@@ -302,6 +302,10 @@ where
         // MAV is provided by the context from whatever interface the command was received on
         if context.mav {
             stb |= StatusBit::Mav.mask();
+            // MAV takes part in the master summary like any other status bit
+            if StatusBit::Mav.mask() & device.sre() != 0 {
+                stb |= StatusBit::RqsMss.mask();
+            }
         }
         response.data(stb).finish()
     }
